@@ -402,6 +402,17 @@ class Engine:
             it = self.registry.iter_view(self, st, v, node)
             if it is not None:
                 return self.set_of(it, st, node)
+        if isinstance(v, VPy) and isinstance(v.obj, tuple) and v.obj and v.obj[0] == "values" and isinstance(v.obj[1], VDict):
+            # set(d.values()): the image of the key set under the map (with a skolem pre-image for every member)
+            d = v.obj[1]
+            rs = d.val.sort().range()
+            img = z3.Const(fresh_name("img"), z3.ArraySort(rs, z3.BoolSort()))
+            pre = z3.Function(fresh_name("preimage"), rs, d.dom.sort().domain())
+            k = z3.Const(fresh_name("k"), d.dom.sort().domain())
+            x = z3.Const(fresh_name("x"), rs)
+            st.assume(z3.ForAll([k], z3.Implies(d.dom[k], img[d.val[k]]), patterns=[d.val[k]]))
+            st.assume(z3.ForAll([x], z3.Implies(img[x], z3.And(d.dom[pre(x)], d.val[pre(x)] == x)), patterns=[img[x]]))
+            return VSet(img, T.set(d.ty.args[1]))
         raise Unsupported("set view of %s" % type(v).__name__, node)
 
     def list_mem(self, l: VList, st: State):
